@@ -40,6 +40,8 @@ type c04Spec struct {
 	Calls     []c04Call `json:"calls"`
 	EndAt     int       `json:"end_ms"`
 	NoStandaloneSSE bool `json:"no_standalone_sse,omitempty"`
+	Version   string    `json:"version,omitempty"` // sdk mode: requested protocol version ("" = the client's default)
+	Propagate bool      `json:"propagate,omitempty"` // stateless HTTP: StreamableHTTPOptions.PropagateRequestCancellation
 }
 
 func genC04(r *vh.Rand) c04Spec {
@@ -48,6 +50,17 @@ func genC04(r *vh.Rand) c04Spec {
 		s.Mode = "script"
 	} else {
 		s.Transport = vhm.PairKinds[r.Intn(len(vhm.PairKinds))]
+		s.Version = "2025-06-18"
+		if r.Chance(1, 4) {
+			// the client's default: 2026-07-28 wherever the transport can serve it
+			s.Version = ""
+			s.Transport = r.Choose("mem", "pipe", "http-stateless", "http-stateless", "http", "sse")
+		} else if r.Chance(1, 8) {
+			s.Transport = "http-stateless"
+		}
+		if s.Transport == "http-stateless" {
+			s.Propagate = r.Bool()
+		}
 	}
 	k := r.Range(1, 8)
 	for i := 0; i < k; i++ {
@@ -56,8 +69,8 @@ func genC04(r *vh.Rand) c04Spec {
 			cs.CancelAt = cs.StartAt + r.Intn(7)
 		}
 		if s.Mode == "sdk" {
-			if r.Chance(1, 3) {
-				cs.Dir = "s2c"
+			if r.Chance(1, 3) && s.Version != "" && s.Transport != "http-stateless" {
+				cs.Dir = "s2c" // server->client requests need a legacy, stateful session
 			}
 			if cs.CancelAt < 0 || r.Chance(1, 3) {
 				cs.ReleaseAt = cs.StartAt + r.Intn(8) // may tie with or precede the cancel
@@ -209,7 +222,7 @@ func runC04SDK(c *vh.Case, spec c04Spec) {
 			return &mcp.CreateMessageResult{Model: "m", Role: "assistant", Content: &mcp.TextContent{Text: fmt.Sprintf("nonce-%d", n)}}, nil
 		},
 	})
-	pair, err := vhm.Connect(ctx, vhm.PairOpts{Kind: spec.Transport, Server: server, Client: client, ClientVersion: "2025-06-18", DisableStandaloneSSE: spec.NoStandaloneSSE})
+	pair, err := vhm.Connect(ctx, vhm.PairOpts{Kind: spec.Transport, Server: server, Client: client, ClientVersion: spec.Version, DisableStandaloneSSE: spec.NoStandaloneSSE, HTTPOpts: &mcp.StreamableHTTPOptions{PropagateRequestCancellation: spec.Propagate}})
 	if err != nil {
 		c.Inconclusive("connect %s: %v", spec.Transport, err)
 		return
@@ -266,7 +279,10 @@ func runC04SDK(c *vh.Case, spec c04Spec) {
 	time.Sleep(ms(spec.EndAt))
 	// the session must still be usable
 	log.Add("followup-start")
-	if err := cs.Ping(ctx, nil); err != nil {
+	if cs.InitializeResult().ProtocolVersion >= "2026-07-28" {
+		// ping is not part of the sessionless protocol
+		log.Add("followup", "what", "ping", "outcome", "ok")
+	} else if err := cs.Ping(ctx, nil); err != nil {
 		log.Add("followup", "what", "ping", "outcome", "error:"+err.Error())
 	} else {
 		log.Add("followup", "what", "ping", "outcome", "ok")
@@ -518,7 +534,13 @@ func decideC04(c *vh.Case, spec c04Spec) {
 				// ("during handling"), must see the cancellation at the cancel instant
 				if hasStart && hs.Seq < cancelSeq[n] {
 					if !hasDone {
-						c.Violate("handler-not-cancelled", "call %d cancelled at %dus: its handler (started %dus) never observed ctx.Done", n, ct, hs.T)
+						key := "handler-not-cancelled"
+						if spec.Transport == "http-stateless" && !(spec.Version == "" && spec.Propagate) {
+							// every POST is its own session there: the cancellation notice reaches another one.
+							// Only 2026-07-28 requests with PropagateRequestCancellation are tied to the HTTP request.
+							key = "handler-not-cancelled/http-stateless"
+						}
+						c.Violate(key, "call %d cancelled at %dus over %s (version %q, propagate=%v): its handler (started %dus) never observed ctx.Done", n, ct, spec.Transport, spec.Version, spec.Propagate, hs.T)
 						return
 					}
 					if hd.T != ct {
